@@ -1,6 +1,7 @@
 package main
 
 import (
+	"bytes"
 	"encoding/hex"
 	"fmt"
 	"strings"
@@ -159,7 +160,17 @@ func c16Check(r *rt.Rec, c c16Case, class string) bool {
 }
 
 // nonHex variants of a good hex string
+// nonHex: variants of a good hex string that are not valid hexadecimal; each is listed twice in a row,
+// so that a wrapper that remembers something about the previous (refused) call is exercised.
 func nonHex(rng *rt.Rand, good string) []string {
+	var out []string
+	for _, b := range nonHex1(rng, good) {
+		out = append(out, b, b)
+	}
+	return out
+}
+
+func nonHex1(rng *rt.Rand, good string) []string {
 	mid := len(good) / 2
 	return []string{
 		good[:len(good)-1],                     // odd length
@@ -187,16 +198,21 @@ func c16Run(j *rt.Job, seed uint64, r *rt.Rec) {
 			pkA := d.GetPK()
 			pk := pkA[:]
 			msg := dilMsg(rng, rng.Intn(30))
+			if t%2 == 1 {
+				msg = []byte([]string{"0xdeadbeef", "0x", "0X00", "0x0x" + hex.EncodeToString(rng.Bytes(4))}[rng.Intn(4)])
+			}
 			sigA, _ := d.Sign(msg)
 			sig := sigA[:]
 			adA := d.GetAddress()
 			triples := map[string][3][]byte{
-				"valid":         {msg, sig, pk},
-				"sig-bitflip":   {msg, flipBit(sig, rng.Intn(len(sig)*8)), pk},
-				"pk-bitflip":    {msg, sig, flipBit(pk, rng.Intn(len(pk)*8))},
-				"other-message": {append([]byte("x"), msg...), sig, pk},
-				"zero-sig":      {msg, make([]byte, 4595), pk},
-				"last-byte":     {msg, flipBit(sig, len(sig)*8-1), pk},
+				"valid":               {msg, sig, pk},
+				"sig-bitflip":         {msg, flipBit(sig, rng.Intn(len(sig)*8)), pk},
+				"pk-bitflip":          {msg, sig, flipBit(pk, rng.Intn(len(pk)*8))},
+				"other-message":       {append([]byte("x"), msg...), sig, pk},
+				"message-0x-added":    {append([]byte("0x"), msg...), sig, pk},
+				"message-0x-stripped": {bytes.TrimPrefix(msg, []byte("0x")), sig, pk},
+				"zero-sig":            {msg, make([]byte, 4595), pk},
+				"last-byte":           {msg, flipBit(sig, len(sig)*8-1), pk},
 			}
 			for class, tr := range triples {
 				for sa := 0; sa < 4; sa++ {
@@ -250,6 +266,10 @@ func c16Run(j *rt.Job, seed uint64, r *rt.Rec) {
 				k.SetIndex(uint32(i))
 			}
 			msg := []byte(fmt.Sprintf("message %d \x00\xff", t))
+			if t%2 == 1 {
+				// messages that look like the wrappers' own string arguments
+				msg = []byte([]string{"0xdeadbeef", "0x", "0X00", "0x0x" + hex.EncodeToString(rng.Bytes(4))}[rng.Intn(4)])
+			}
 			sig, _ := k.Sign(msg)
 			p2 := append([]byte(nil), pk...)
 			p2[0] = (p2[0] + 1) % 3
@@ -258,14 +278,16 @@ func c16Run(j *rt.Job, seed uint64, r *rt.Rec) {
 			p4 := append([]byte(nil), pk...)
 			p4[1] ^= 0x01 // other height: size mismatch
 			triples := map[string][3][]byte{
-				"valid":           {msg, sig, pk},
-				"sig-bitflip":     {msg, flipBit(sig, rng.Intn(len(sig)*8)), pk},
-				"pk-bitflip":      {msg, sig, flipBit(pk, 24+rng.Intn(64*8))},
-				"other-message":   {append([]byte("x"), msg...), sig, pk},
-				"other-hash-desc": {msg, sig, p2},
-				"sigtype-desc":    {msg, sig, p3},
-				"height-desc":     {msg, sig, p4},
-				"last-byte":       {msg, flipBit(sig, len(sig)*8-1), pk},
+				"valid":               {msg, sig, pk},
+				"sig-bitflip":         {msg, flipBit(sig, rng.Intn(len(sig)*8)), pk},
+				"pk-bitflip":          {msg, sig, flipBit(pk, 24+rng.Intn(64*8))},
+				"other-message":       {append([]byte("x"), msg...), sig, pk},
+				"message-0x-added":    {append([]byte("0x"), msg...), sig, pk},
+				"message-0x-stripped": {bytes.TrimPrefix(msg, []byte("0x")), sig, pk},
+				"other-hash-desc":     {msg, sig, p2},
+				"sigtype-desc":        {msg, sig, p3},
+				"height-desc":         {msg, sig, p4},
+				"last-byte":           {msg, flipBit(sig, len(sig)*8-1), pk},
 			}
 			for class, tr := range triples {
 				for sa := 0; sa < 4; sa++ {
